@@ -57,6 +57,7 @@ type Exec struct {
 	warnings []string
 
 	inputs []*Term // terms whose model values are requested on sat
+	inputNames map[string]string // friendly names of input terms (slice elements)
 
 	modTargets []*modTarget // function-level modifies, evaluated at entry
 	usedSpecFn map[string]bool
